@@ -8,6 +8,7 @@ import (
 	"sort"
 	"strconv"
 	"strings"
+	"syscall"
 	"time"
 
 	"pault.ag/go/debian/control"
@@ -352,6 +353,104 @@ func runUploadSeq(a []string) (string, string) {
 // law-upload is the same run judged against the property directly
 func init() {
 	uploadImpl["uploadseq"] = func(a []string) string { out, _ := runUploadSeq(a); return out }
+	// law: Move (and Copy) into a directory on another file system.  Either it fails and the
+	// control file is where it was, complete, with the handle unchanged; or it succeeds and every
+	// listed file and the control file are in the destination with their content, the handle
+	// pointing there (and, for Move, nothing left behind).  args: kind, op, number of files
+	uploadImpl["law-upload-xdev"] = func(a []string) string {
+		kind, op := a[0], a[1]
+		n, _ := strconv.Atoi(a[2])
+		src, err := os.MkdirTemp("", "verif-xdev-src-")
+		if err != nil {
+			return "ok"
+		}
+		defer os.RemoveAll(src)
+		dst := ""
+		for _, base := range []string{"/dev/shm", "/run/shm", "/var/tmp", "/run"} {
+			d, err := os.MkdirTemp(base, "verif-xdev-dst-")
+			if err != nil {
+				continue
+			}
+			probe := filepath.Join(src, "probe")
+			os.WriteFile(probe, nil, 0o644)
+			err = os.Rename(probe, filepath.Join(d, "probe"))
+			os.Remove(probe)
+			os.Remove(filepath.Join(d, "probe"))
+			if le, ok := err.(*os.LinkError); ok && le.Err == syscall.EXDEV {
+				dst = d
+				break
+			}
+			os.RemoveAll(d)
+		}
+		if dst == "" {
+			return "ok" // no second file system here
+		}
+		defer os.RemoveAll(dst)
+		ctl := map[string]string{"dsc": "s_1.dsc", "changes": "s_1_amd64.changes"}[kind]
+		doc := "Format: 1.8\nSource: s\nVersion: 1\nFiles:\n"
+		content := map[string]string{}
+		for i := 0; i < n; i++ {
+			name := fmt.Sprintf("s_1.part%d.tar.gz", i)
+			doc += fileLine(kind, name)
+			content[name] = strings.Repeat(name, i+1)
+			os.WriteFile(filepath.Join(src, name), []byte(content[name]), 0o644)
+		}
+		content[ctl] = doc
+		ctlPath := filepath.Join(src, ctl)
+		os.WriteFile(ctlPath, []byte(doc), 0o644)
+		var run func() error
+		var handle func() string
+		if kind == "dsc" {
+			d, err := control.ParseDscFile(ctlPath)
+			if err != nil {
+				return "FAIL " + err.Error()
+			}
+			handle = func() string { return d.Filename }
+			run = func() error { return d.Move(dst) }
+			if op == "copy" {
+				run = func() error { return d.Copy(dst) }
+			}
+		} else {
+			c, err := control.ParseChangesFile(ctlPath)
+			if err != nil {
+				return "FAIL " + err.Error()
+			}
+			handle = func() string { return c.Filename }
+			run = func() error { return c.Move(dst) }
+			if op == "copy" {
+				run = func() error { return c.Copy(dst) }
+			}
+		}
+		err = run()
+		has := func(dir, name string) bool {
+			b, err := os.ReadFile(filepath.Join(dir, name))
+			return err == nil && string(b) == content[name]
+		}
+		if err != nil {
+			if !has(src, ctl) || handle() != ctlPath {
+				return fmt.Sprintf("FAIL %s across file systems failed (%v) and the control file is not where it was (handle %q)", op, err, handle())
+			}
+			if _, e := os.Lstat(filepath.Join(dst, ctl)); e == nil {
+				return fmt.Sprintf("FAIL %s across file systems failed (%v) and the control file is in the destination", op, err)
+			}
+			return "ok"
+		}
+		for name := range content {
+			if !has(dst, name) {
+				return fmt.Sprintf("FAIL %s across file systems reported success, %s is not (complete) in the destination", op, name)
+			}
+			if _, e := os.Lstat(filepath.Join(src, name)); op == "move" && e == nil {
+				return fmt.Sprintf("FAIL Move across file systems reported success, %s is still in the source", name)
+			}
+			if op == "copy" && !has(src, name) {
+				return fmt.Sprintf("FAIL Copy across file systems reported success, %s is gone from the source", name)
+			}
+		}
+		if handle() != filepath.Join(dst, ctl) {
+			return fmt.Sprintf("FAIL %s succeeded and the handle is %q", op, handle())
+		}
+		return "ok"
+	}
 	uploadImpl["law-uploadseq"] = func(a []string) string { _, v := runUploadSeq(a); return v }
 	uploadImpl["law-upload"] = func(a []string) string {
 		res := uploadImpl["upload"](a)
@@ -463,6 +562,10 @@ func streamUpload(g *core.G) {
 		g.Emit("upload", args...)
 		g.Emit("law-upload", args...)
 	}
+	// destinations on another file system (rename(2) fails with EXDEV there)
+	for i := g.N(6, 40); i > 0; i-- {
+		g.Emit("law-upload-xdev", r.Pick([]string{"dsc", "changes"}), r.Pick([]string{"move", "move", "copy"}), strconv.Itoa(r.Intn(4)))
+	}
 	// one handle used for two to four operations in a row (as an archive tool does: copy
 	// to a staging directory, then move on or remove)
 	for i := g.N(150, 8000); i > 0; i-- {
@@ -507,10 +610,13 @@ func init() {
 			"fingerprint:control.Changes.Copy", "fingerprint:control.Changes.Move", "fingerprint:control.Changes.Remove", "fingerprint:control.Changes.AbsFiles", "fingerprint:control.Changes.checkFiles",
 			"fingerprint:control.checkListedFilename", "fingerprint:internal.Copy"},
 		Streams: []core.Stream{{Name: "upload", Gen: streamUpload,
-			Domain: "uploads with 0-4 referenced files x {Copy, Move, Remove} x {.dsc, .changes}; a fault at one position (each referenced file or the control file itself) realised as a file-system state: source missing / an empty or non-empty directory (copy fails after the destination was created), destination name occupied by a file, an empty or a non-empty directory, destination missing or a regular file; listed names incl. '../x', 'a/b', absolute paths, '.', '..', '/', '//', trailing slash, the empty name (.changes line with two blanks), duplicates and the control file's own name; an older, much longer file of the same name already in the destination (1/10; contents compared byte for byte, the control file's too); run on a real temporary tree; observables: result, listing of both directories with contents, where the handle points, whether anything outside was touched; law-upload judges the same run against the property"}},
+			Domain: "law-upload-xdev: Move / Copy into a directory on another file system (/dev/shm when rename(2) there fails with EXDEV): failure leaves the control file and the handle where they were, success means everything arrived; uploads with 0-4 referenced files x {Copy, Move, Remove} x {.dsc, .changes}; a fault at one position (each referenced file or the control file itself) realised as a file-system state: source missing / an empty or non-empty directory (copy fails after the destination was created), destination name occupied by a file, an empty or a non-empty directory, destination missing or a regular file; listed names incl. '../x', 'a/b', absolute paths, '.', '..', '/', '//', trailing slash, the empty name (.changes line with two blanks), duplicates and the control file's own name; an older, much longer file of the same name already in the destination (1/10; contents compared byte for byte, the control file's too); run on a real temporary tree; observables: result, listing of both directories with contents, where the handle points, whether anything outside was touched; law-upload judges the same run against the property"}},
 		Impl: uploadImpl, TrustedBase: tb,
 		Readable: func(op string, a []string) string {
 			var parts []string
+			if op == "law-upload-xdev" {
+				return fmt.Sprintf("%s of a %s with %s listed files into a directory on another file system", a[1], a[0], a[2])
+			}
 			if strings.HasSuffix(op, "uploadseq") {
 				n, _ := strconv.Atoi(a[2])
 				for i := 0; i < n; i++ {
